@@ -157,23 +157,25 @@ func cmdPurityConc(args []string) error {
 		id    string
 		h     string
 	}
-	var mu sync.Mutex
-	var all []res
+	// every goroutine keeps its own results: a shared lock would order the goroutines' accesses and hide races from the detector
+	per := make([][]res, *n)
 	var wg sync.WaitGroup
 	for g := 0; g < *n; g++ {
 		wg.Add(1)
 		go func(g int) {
 			defer wg.Done()
 			for k := 0; k < *iters; k++ {
-				it := items[(g+k*(*n))%len(items)]
+				it := items[(g+k*(*n+1))%len(items)]
 				h := processItem(it)
-				mu.Lock()
-				all = append(all, res{g, k, it.ID, h})
-				mu.Unlock()
+				per[g] = append(per[g], res{g, k, it.ID, h})
 			}
 		}(g)
 	}
 	wg.Wait()
+	var all []res
+	for _, p := range per {
+		all = append(all, p...)
+	}
 	w, err := newNDWriter(*out)
 	if err != nil {
 		return err
@@ -212,6 +214,10 @@ func cmdRepeatGen(args []string) error {
 				if err != nil {
 					fmt.Fprintf(&b, "PARSE ERR %s\n", err)
 					return nil
+				}
+				// what was derived from the text (productions with their generated names, definitions, precedences)
+				if js, err := json.Marshal(dumpOf(it.ID, s)); err == nil {
+					fmt.Fprintf(&b, "SPEC %s\n", sha(string(js)))
 				}
 				dir := filepath.Join(*root, fmt.Sprintf("%s-%d", it.ID, run))
 				if err := os.MkdirAll(dir, 0o755); err != nil {
